@@ -15,7 +15,7 @@ Flip(S, sw) ==
     [] sw = "compact" -> [S EXCEPT !.compact = IF @ = PT(TRUE, <<"codec", "Compact">>) THEN PT(TRUE, <<"x", "y", "C2">>) ELSE PT(TRUE, <<"codec", "Compact">>)]
     [] sw = "bits" -> [S EXCEPT !.bits = IF @ = PT(TRUE, <<"ext", "DecodedBits">>) THEN PT(FALSE, <<"crate", "B2">>) ELSE PT(TRUE, <<"ext", "DecodedBits">>)]
 Combo(a, d, c, r, cp, b) ==
-  LET s0 == Base
+  LET s0 == [Base EXCEPT !.has_compact_as = TRUE]
       s1 == IF a THEN Flip(s0, "alloc") ELSE s0
       s2 == IF d THEN Flip(s1, "docs") ELSE s1
       s3 == IF c THEN Flip(s2, "codec") ELSE s2
@@ -35,6 +35,7 @@ EraseTy(t, S, sw) ==
          ELSE IF sw = "compact" /\ t.lead = S.compact.lead /\ t.segs = S.compact.segs THEN TPath(FALSE, <<"$compact">>, args)
          ELSE IF sw = "bits" /\ t.lead = S.bits.lead /\ t.segs = S.bits.segs THEN TPath(FALSE, <<"$bits">>, args)
          ELSE [t EXCEPT !.args = args]
+    [] t.k = "qpath" -> [t EXCEPT !.segargs = [sg \in DOMAIN @ |-> [i \in DOMAIN @[sg] |-> EraseTy(@[sg][i], S, sw)]]]
     [] t.k = "tup" -> [t EXCEPT !.elems = [i \in DOMAIN @ |-> EraseTy(@[i], S, sw)]]
     [] t.k = "arr" -> [t EXCEPT !.of = EraseTy(@, S, sw)]
     [] OTHER -> t
